@@ -470,6 +470,9 @@ func (c *HTTPClient) discover() error {
 			c.topology.Update(primary, secondaries...)
 			break
 		}
+		// doReq only marks an endpoint dead on transport errors and 5xx: a
+		// node that keeps refusing the request must not be asked again
+		e.MarkAsDead()
 	}
 
 	return nil
